@@ -180,6 +180,51 @@ def tiledChoice {β : Type} (a : List β) (size : List Nat) (replace : Bool) (dr
   | .error e => .error e
   | .ok idx => .ok (Np.take idx a)
 
+/-! ### tiled_choice, literally
+```
+out = numpy.empty(nsample, dtype = a.dtype)
+for i in range(qu): out[(i*noption):((i+1)*noption)] = a
+out[(qu*noption):] = rng.choice(a, re, replace, p)
+rng.shuffle(out)
+```
+`init` = whatever `numpy.empty` left in the buffer (Lemmas/SamplingLoops: the result does not depend on it and is
+`tiledIdx`). -/
+
+/-- `out[start : start+len(vals)] = vals` on a flat buffer -/
+def setSlice {β : Type} (out : List β) (start : Nat) (vals : List β) : List β :=
+  out.take start ++ vals ++ out.drop (start + vals.length)
+
+/-- the tile loop: `for i in range(qu): out[i*noption:(i+1)*noption] = range(noption)` -/
+def tiledFill (noption qu : Nat) (init : List Nat) : List Nat :=
+  (List.range qu).foldl (fun out i => setSlice out (i * noption) (List.range noption)) init
+
+def tiledLoopIdx (noption nsample : Nat) (draw perm init : List Nat) : Except String (List Nat) :=
+  if noption = 0 then .error "value" else
+  if draw.length = nsample % noption ∧ (∀ i ∈ draw, i < noption) ∧ draw.Nodup then
+    if isPerm perm nsample = true then
+      .ok (applyPerm perm (setSlice (tiledFill noption (nsample / noption) init) (nsample / noption * noption) draw))
+    else .error "oracle: perm is not a rearrangement"
+  else .error "oracle: choice without replacement must return re distinct options"
+
+/-! ## the second copy of the tiling mechanism: opt/algo/pymoo_addon.py:tiled_choice(a, size)
+```
+ndiv = size // a; nrem = size % a
+for i in range(ndiv): out[a*i:a*(i+1)] = np.random.choice(a, a, replace = False)
+out[a*ndiv:] = np.random.choice(a, nrem, replace = False)
+```
+`tiles` = the `ndiv + 1` results of `np.random.choice` in call order (oracle inputs; each is validated to be
+what a draw without replacement from `range(a)` can return). -/
+
+/-- `d` is something `choice(a, len, replace=False)` can return: `len` distinct options below `a` -/
+def isDistinctDraw (a len : Nat) (d : List Nat) : Bool :=
+  d.length == len && d.all (fun i => decide (i < a)) && decide d.Nodup
+
+def tiledAddon (a size : Nat) (tiles : List (List Nat)) : Except String (List Nat) :=
+  if a = 0 then .error "zerodiv" else                 -- `size // 0`
+  if tiles.length = size / a + 1 ∧ (tiles.take (size / a)).all (isDistinctDraw a a) = true ∧
+     (tiles.drop (size / a)).all (isDistinctDraw a (size % a)) = true then .ok tiles.flatten
+  else .error "oracle: size // a full draws and one draw of size % a options, all without replacement, expected"
+
 /-! ## axis_shuffle (l.158-196) with sliceaxisix (core/util/array.py l.161-199) -/
 
 /-- all index tuples of an array of the given shape, in row-major order -/
@@ -354,6 +399,54 @@ def outcross (nrow ncol : Nat) (x : List β) (orders : List (List (Nat × Nat)))
     else .error "oracle: every pass must visit every pair once"
   else .error "oracle: data does not fit shape"
 
+/-! ### outcross_shuffle, literally, on a table of any memory layout
+`xravel = xconfig.flat` addresses the entries of the table in C order wherever they lie in memory: logical position
+`q` is element `addr[q]` of the underlying buffer (`addr` = distinct in-range offsets: C order, Fortran order, a column
+or row subset of a larger array, negative strides, …).  The loop exchanges **in place** and exchanges **back** when
+the score did not drop:
+```
+for i,j in exchix:
+    xravel[i], xravel[j] = xravel[j], xravel[i]
+    score = objfn(xconfig)
+    if score < gbest_score: gbest_score = score; local_optima = False; break
+    xravel[i], xravel[j] = xravel[j], xravel[i]
+```
+Lemmas/SamplingLoops proves that this is `outcross` on the logical content and leaves the rest of the buffer alone. -/
+
+/-- the logical (C-order) content of the table: `xconfig.ravel()` as a copy -/
+def gather (buf : List β) (addr : List Nat) : List β := Np.take addr buf
+
+/-- `xravel[i], xravel[j] = xravel[j], xravel[i]` -/
+def swapAt (buf : List β) (addr : List Nat) (i j : Nat) : List β :=
+  match addr[i]?, addr[j]? with
+  | some a, some b => swap buf a b
+  | _, _ => buf
+
+/-- one pass of the `for i,j in exchix` loop on the buffer: (buffer, gbest_score, local_optima) -/
+def passLit (sc : List β → Nat) (addr : List Nat) : List β → Nat → List (Nat × Nat) → List β × Nat × Bool
+  | buf, g, [] => (buf, g, true)
+  | buf, g, ij :: rest =>
+    let b1 := swapAt buf addr ij.1 ij.2
+    if sc (gather b1 addr) < g then (b1, sc (gather b1 addr), false)
+    else passLit sc addr (swapAt b1 addr ij.1 ij.2) g rest
+
+/-- the `while iterate` loop on the buffer -/
+def climbLit (sc : List β → Nat) (addr : List Nat) : List (List (Nat × Nat)) → List β → Nat → Except String (List β)
+  | [], _, _ => .error "oracle: pair orders exhausted"
+  | o :: os, buf, g =>
+    match passLit sc addr buf g o with
+    | (b, _, true) => .ok b
+    | (b, g', false) => climbLit sc addr os b g'
+
+/-- `outcross_shuffle(xconfig)` for a table whose entries live at the offsets `addr` of `buf`; result = the buffer -/
+def outcrossBuf (nrow ncol : Nat) (buf : List β) (addr : List Nat) (orders : List (List (Nat × Nat))) :
+    Except String (List β) :=
+  if addr.length = nrow * ncol ∧ addr.Nodup ∧ ∀ a ∈ addr, a < buf.length then
+    if orders.all (isPairOrder addr.length) = true then
+      climbLit (score nrow ncol) addr orders buf (score nrow ncol (gather buf addr))
+    else .error "oracle: every pass must visit every pair once"
+  else .error "oracle: the table is not a view of the buffer"
+
 /-- before fix 5d3f529a (`xravel = xconfig.ravel()` instead of `xconfig.flat`): the ravel was a view of the table
     only when the table was C-contiguous; otherwise every exchange was made on a copy, `objfn(xconfig)` never
     changed, the first pass ended without an improvement and the table was left as it was.
@@ -417,6 +510,14 @@ def specAxisBad {β : Type} [DecidableEq β] (shape axis : List Nat) (before aft
 
 def specAxis {β : Type} [DecidableEq β] (shape axis : List Nat) (before after : List β) : Bool :=
   after.length == before.length && (specAxisBad shape axis before after).isEmpty
+
+/-- `sliceaxisix(shape, axis)`: the yielded tuples, read as (coordinates at the iterated axes) are all combinations
+    of in-range coordinates in lexicographic order; every tuple has one entry per axis and `slice(None)` (`none`)
+    exactly at the axes that are not iterated.  (This determines the list of tuples: Lemmas/SamplingSlices.) -/
+def specSlices (shape axis : List Nat) (tuples : List (List (Option Nat))) : Bool :=
+  (tuples.map (fun t => t.filterMap id) == sliceKeys shape axis) &&
+  tuples.all (fun t => t.length == shape.length &&
+    (List.range t.length).all (fun e => (t.getD e none).isNone == !(axis.contains e)))
 
 structure OutcrossVerdict where
   multOk : Bool                     -- same multiset of entries
